@@ -227,7 +227,12 @@ FdNoMd(c, cfg, pkt) ==
 EofNoMd(c, cfg, pkt) ==
   LET c1 == [c EXCEPT !.h.p.progress = pkt.size, !.h.p.eofSize = pkt.size, !.h.p.crcSet = TRUE, !.h.p.crc = pkt.chk,
                       !.h.p.mdMissing = TRUE]
-      c2 == IF pkt.size > 0 THEN [c1 EXCEPT !.h.p.lost = << <<0, pkt.size>> >>] ELSE c1
+      c2a == IF pkt.size > 0 THEN [c1 EXCEPT !.h.p.lost = << <<0, pkt.size>> >>] ELSE c1
+      \* EOF (cancel): cancel response procedures, fault location = the remote entity
+      c2 == IF pkt.cond # "NO_ERROR"
+            THEN [c2a EXCEPT !.h.p.disp = "CANCELED", !.h.p.cond = pkt.cond, !.h.p.floc = [set |-> TRUE, v |-> IdBytes(cfg.sIdW, cfg.sId)],
+                             !.h.p.deliv = "DATA_INCOMPLETE"]
+            ELSE c2a
       c3 == IF cfg.indD.eofRecv THEN IndD(c2, [k |-> "eof_recv", tid |-> c.h.p.tid]) ELSE c2
   IN StepD(EmitD(c3, MkAckEof(c3)), "SENDING_EOF_ACK_PDU")
 \* _handle_waiting_for_missing_metadata
